@@ -177,7 +177,8 @@ CHECKS = {
    note="[also: radius_effective has no zero divisor for positive size parameters in every selectable mode (cvc safety obligations, 120 discharged, superball undecided and not claimed); Kernel.Fq results do not alias the reused buffer] the inequality itself follows from the structure by the weighted Cauchy-Schwarz lemma (Lean) with the node weights "
         "c_n = s1^2/s2 evaluated over every node of the quadrature tables in the generated source (SUM c_n = 1, c_n >= 0: ground "
         "obligations, float64); inner quadratures in pure model-local helpers enter Fq by their contract (frame checked on the AST); "
-        "models whose Fq leaves the subset (vector parameters, do-while) get a bounded numeric stand-in "
+        "the three models with vector parameters are proved for their clause F2 = F1^2 with the shell loops of symbolic length taken by the "
+        "trivial contract (modified variables arbitrary afterwards); a model whose Fq leaves the subset would get a bounded numeric stand-in "
         "(listed, not counted); q->0 equality, positivity and finiteness only through the replay grid",
    technique=TECH + "clang JSON AST -> Sigma-normal forms -> polynomial identities / z3; replay grid on call_Fq",
    design="DESIGN.md 6 C14"),
